@@ -249,7 +249,7 @@ def run(chk, replay=None):
                                'phasor round trip changes the sinusoid')
 
     chk.coverage['correspondence']['samples_of_disagreement'] = disagreements[:5]
-    if broken and n_cex == 0 and not chk.known_seen:
+    if broken and n_cex == 0:
         for b in broken[:20]:
             chk.unexplained('broken-obligation', b, chk.coverage.get('build_log_tail', '')[-600:])
     if disagreements and n_cex == 0:
